@@ -126,6 +126,18 @@ def run(prop, tier, seed):
             f = (lambda c, a, h: lambda x: sum(float(ck) * ((x - a) / h) ** k for k, ck in enumerate(c)))(c, a, h)
             add("h12", N, "far-interval", 0, sx.seminorm_h_1_2(f, a, a + h), sr.h12(c, h), 1e-6 * abs(sr.h12(c, h)), {"interval": [a, a + h]})
             add("h14", N, "far-interval", 0, sx.seminorm_h_1_4(f, a, a + h), sr.h14(c, h), 1e-6 * abs(sr.h14(c, h)), {"interval": [a, a + h]})
+    # one object, consecutive calls on *nearby* intervals (a slab, its union with a neighbour, the neighbour: the call
+    # pattern of the estimator), near and far from the origin, thin and wide
+    for N in (5, 13):
+        sx = Slobodeckij(N)
+        for a0 in (0.0, 3.0, 200.0, 1000.0, -250.0):
+            for h0 in (1e-3, 4e-3, 0.05, 1.0):
+                for a, h in ((a0, h0), (a0, 2 * h0), (a0 - h0, 2 * h0), (a0 + h0, h0), (a0, h0)):
+                    h = (a + h) - a
+                    c = rand_poly(rng, (N - 1) // 2)
+                    f = (lambda c, a, h: lambda x: sum(float(ck) * ((x - a) / h) ** k for k, ck in enumerate(c)))(c, a, h)
+                    add("h14", N, "nearby-consecutive", 0, sx.seminorm_h_1_4(f, a, a + h), sr.h14(c, h), 1e-6 * abs(sr.h14(c, h)), {"interval": [a, a + h]})
+                    add("h12", N, "nearby-consecutive", 0, sx.seminorm_h_1_2(f, a, a + h), sr.h12(c, h), 1e-6 * abs(sr.h12(c, h)), {"interval": [a, a + h]})
     # corner configuration: polynomial data in the embedded coordinates, order 21
     R = Rules(n=20, q=0.3, levels=30)
     for rep in range(2 if quick else 8):
